@@ -22,7 +22,7 @@ C_NA == 3
 C_TermsA == {"\r\n", "\n", ""}
 C_HdrsA == {<<>>}
 \* family B: method sep path sep version terminator x header blocks; a sequence of parameter bundles
-C_FamB == << [M |-> {"GET", "HEAD", "x"}, S |-> {" ", "\t"}, P |-> {"/wap", "/wap/x", "/x", "x/wap", ""},
+C_FamB == << [M |-> {"GET", "HEAD", "x"}, S |-> {" ", "\t"}, P |-> {"/wap", "/wap/x", "/wapx", "/wap?x", "/x", "x/wap", ""},
               V |-> {"HTTP/1.0", "xHTTP/", "0"}, T |-> {"\r\n", "\n"}, HK |-> {"AW", "XP"}, HN |-> 1] >>
 \* family C: selector followed by 1..C_CN TAB-separated fields
 C_CSel == {"", "x"}
